@@ -128,6 +128,7 @@ def run(module, cfg_text=None, cfg_file=None, workdir=None, workers=None, args=(
         workers = os.cpu_count() or 4
     jopts = ["-XX:+UseSerialGC" if workers <= 4 else "-XX:+UseParallelGC", "-Xmx" + heap, "-XX:TieredStopAtLevel=1"
              ] if workers <= 2 else ["-XX:+UseParallelGC", "-XX:ParallelGCThreads=%d" % min(8, workers), "-Xmx" + heap]
+    jopts.append("-Xss256m")     # recursive operators over netlists / traces need a deep Java stack
     if deque:
         jopts.append("-Dtlc2.tool.queue.IStateQueue=StateDeque")
     cmd = ["java"] + jopts + ["-cp", JAR, "tlc2.TLC", "-metadir", meta, "-noGenerateSpecTE"]
